@@ -6,12 +6,14 @@ package main
 //   from the extracted randomness, and Verify must return the expected caveat list.
 
 import (
-	"crypto/sha256"
 	"bytes"
+	"crypto/sha256"
 	"fmt"
 	"strings"
 
 	"github.com/superfly/macaroon"
+	"github.com/superfly/macaroon/flyio"
+	"github.com/superfly/macaroon/resset"
 )
 
 func init() {
@@ -127,15 +129,34 @@ func famLegit(r *Rng, o *Out, tier string) {
 		var tps []tpUse
 		ancestors := [][]byte{mustEnc(tok)}
 		steps := 1 + r.Intn(4)
+		dead := false
 		for s := 0; s < steps; s++ {
-			if r.Bool() { // a hop: the next holder works from the encoded token
-				tok, err = macaroon.Decode(mustEnc(tok))
+			if r.Bool() || (i%97 == 5 && s == 1) { // a hop: the next holder works from the encoded token
+				enc := mustEnc(tok)
+				tok, err = macaroon.Decode(enc)
 				if err != nil {
-					panic(err)
+					// a token the library itself produced must decode: report it, give up this history
+					o.emit("(dec.mac "+hexb(enc)+")", "err")
+					o.emit("(const match)", "legit-token-does-not-decode:"+strings.ReplaceAll(err.Error(), " ", "_"))
+					dead = true
+					break
 				}
 				o.count("hop")
 			}
 			var items []addItem
+			// once in a while a LONG attenuation step: a couple of hundred small struct-bodied caveats (and a
+			// Commands caveat with many commands) - tokens may carry any number of caveats
+			if i%97 == 5 && s == 0 {
+				for k := 0; k < 210; k++ {
+					items = append(items, addItem{cav: &flyio.Organization{ID: uint64(1000 + k), Mask: resset.ActionAll}})
+				}
+				cmds := make(flyio.Commands, 120)
+				for k := range cmds {
+					cmds[k] = flyio.Command{Args: []string{"a", fmt.Sprint(k)}}
+				}
+				items = append(items, addItem{cav: &cmds})
+				o.count("add.long")
+			}
 			for k, m := 0, r.Intn(4); k < m; k++ {
 				switch {
 				case r.Chance(1, 5) && len(expected) > 0: // byte-identical re-add
@@ -176,6 +197,9 @@ func famLegit(r *Rng, o *Out, tier string) {
 				}
 			}
 			ancestors = append(ancestors, mustEnc(tok))
+		}
+		if dead {
+			continue
 		}
 		final := mustEnc(tok)
 		// discharges
